@@ -103,4 +103,19 @@ PROPS = {
             "termination is judged by a CPU work bound of 2s + 50us per input byte per call (measured with getrusage in the child); a wall-clock watchdog only yields 'inconclusive'",
         ],
     },
+    "C10": {
+        "shards": 8,
+        "race": True,
+        "gomaxprocs": 16,
+        "level_text": "The worker is built with -race. Hundreds (quick) / tens of thousands (thorough) of short trials: a fresh codec (or, in every worker process, the package-level Global codec on its very first use; or a warm codec) is shared by 2-32 goroutines released by a barrier, each running a PRNG-determined sequence of encode / decode / query-decode / schema-lookup calls over a type pool built to collide in the schema cache (types sharing sub-schemas, self- and mutually recursive types, disjoint types, generated Go types and dynamicpb types), GOMAXPROCS in {2,4,16}, random yields. Monitors: race-detector reports (any report = violation), child death (concurrent map writes, deadlock), per-call result equal to the same call run alone, porcupine linearizability check of the recorded history (codec = pure function, schema cache = write-once register per type name).",
+        "level_note": "The race detector only sees the interleavings that happened; schedules are sampled, not enumerated. Checker timeouts and the trial watchdog are inconclusive, never violations.",
+        "technique": "runtime monitoring: Go race detector + recorded call histories checked offline (sequential-equivalence per call, porcupine linearizability) over stress trials in journalled child processes",
+        "rule": "one evaluation per trial; non-trivial = at least one pair of calls by different goroutines overlapped in real time; distinct by hash of (mode, goroutine count, completion order of all calls) - i.e. distinct observed interleavings.",
+        "floors": ["c10:mode:fresh", "c10:mode:warm", "c10:mode:global", "c10:gomaxprocs:2", "c10:gomaxprocs:16", "c10:goroutines:2", "c10:goroutines:32"],
+        "assumptions": COMMON_ASSUMPTIONS + [
+            "race reports are read from the GORACE log files of every child and deduplicated by the pair of innermost repository frames",
+            "results are compared as digests of canonical JSON (members sorted: map iteration order is not a property of the codec) and of deterministic proto serialisations",
+        ],
+        "wall_timeout": {"quick": 1200, "thorough": 7200},
+    },
 }
